@@ -9,7 +9,7 @@ line per seed: exit code, whether the VIOLATION came with a failing input, the f
 failing input for every seed.  Exit code of this tool: 0 iff that is so."""
 import json, os, shutil, subprocess, sys, tempfile
 
-V = "/verif"
+V = os.environ.get("VERIF_CLONE") or os.path.dirname(os.path.dirname(os.path.abspath(__file__)))      # the clone this tool lives in
 wt = sys.argv[1]
 assert os.path.realpath(wt) != "/repo"
 args = sys.argv[2:]
